@@ -16,7 +16,7 @@ func init() {
 		Patterns: []string{"./pkg/module/http2"},
 		Explanation: "(W1) every DATA payload handed to Framer.writeData is remain[:allowed] where allowed is the first result of awaitFlowControl evaluated in the same loop iteration, and the loop continues with remain[allowed:]; an empty/nil payload (end-of-stream marker) is the only other form; " +
 			"(W2) in every awaitFlowControl the returned amount starts from flow.available(), is positive, is clamped by the caller's remaining bytes and by the peer's maximum frame size, is debited with flow.take before it is returned, the wait is cond.Wait() under the connection mutex and closed connection/stream are checked inside the loop; " +
-			"(W3) flow.available is the minimum of the stream and the connection window and flow.take debits both and refuses more than available. Wire compatibility of framing and HPACK with x/net is not decided. (W4) every flow.add on a send window of a shared connection/stream, and every stream removal, is followed by cond.Broadcast() before the frame handler returns, on every non-error path, following the caller chain up to the M* connection handlers. (W5) path-sensitively over stream id == 0 and stream pointer == nil: no feasible path in processWindowUpdate reaches flow.add on the connection window unless the id was tested to be 0.",
+			"(W3) flow.available is the minimum of the stream and the connection window and flow.take debits both and refuses more than available. Wire compatibility of framing and HPACK with x/net is not decided. (W4) every flow.add on a send window of a shared connection/stream, and every stream removal, is followed by cond.Broadcast() before the frame handler returns, on every non-error path, following the caller chain up to the M* connection handlers. (W5) path-sensitively over stream id == 0 and stream pointer == nil: no feasible path in processWindowUpdate reaches flow.add on the connection window unless the id was tested to be 0. (W6) the HTTP/2 frame-reader clauses of C07.B2h evaluated as obligations of this property (progress, single last drain by the reported size, HPACK decoder written only when no further ReadFrame can follow).",
 		Run: runC18,
 	})
 }
